@@ -18,7 +18,16 @@ sh("git -C /repo worktree remove --force %s" % wt); shutil.rmtree(wt, ignore_err
 os.makedirs("/tmp/ev", exist_ok=True)
 rc, out = sh("git -C /repo worktree add -q --detach %s HEAD" % wt); assert rc == 0, out
 try:
-    rc, out = sh("git apply %s/patch.diff" % d, cwd=wt); assert rc == 0, out
+    rc, out = sh("git apply %s/patch.diff" % d, cwd=wt)
+    if rc != 0:
+        # made against an earlier commit of /repo (a later fix: commit touched the same lines)
+        rc, out = sh("git apply --3way %s/patch.diff" % d, cwd=wt)
+    if rc != 0:
+        _, head = sh("git -C /verif rev-parse --short HEAD")
+        m["recheck"] = {"machinery_commit": head.strip(), "check_exit": None, "note": "patch was made against an earlier /repo commit and no longer applies to HEAD: " + out.strip()[-200:]}
+        json.dump(m, open(d + "/meta.json", "w"), indent=1)
+        print(sid, "patch-does-not-apply-to-HEAD")
+        raise SystemExit(0)
     sh("rsync -a --exclude bin --exclude .work --exclude .git --exclude replays --exclude evidence --exclude seeded /verif/ %s/" % vcopy)
     t0 = time.time()
     rc, out = sh("VERIF_REPO=%s ./check quick %s" % (wt, prop), cwd=vcopy)
